@@ -30,7 +30,8 @@ type H13Op struct {
 	Carrier    string `json:"carrier,omitempty"` // fresh | reused | raw
 	Env        string `json:"env,omitempty"`     // invoke: environment contents
 	StdoutFail bool   `json:"stdout_fail,omitempty"`
-	N          int    `json:"n,omitempty"` // interfere: number of unrelated compilations
+	GCBefore   bool   `json:"gc_before,omitempty"` // injected fault: a full collection right before this operation
+	N          int    `json:"n,omitempty"`         // interfere: number of unrelated compilations
 }
 
 type Hist13 struct {
@@ -88,6 +89,17 @@ var c13Extra = []Prog{
 	{"string(union(l, l))", "map", false, false},
 	{"get(mo, \"u\", o)", "map", false, false},
 	{"{x: get(mo, \"nope\", o), y: o}", "struct", false, false},
+	{"[diff(l, [9]), l]", "map", false, false},
+	{"[union(ls, ls), ls]", "struct", false, false},
+	{"[intersect(l, l), l]", "map", false, false},
+	{"string(l) + string(union(l, [1])) + string(l)", "map", false, false},
+	{"l[2] + len(diff(l, [2]))", "struct", false, false},
+	{"n + 1", "hetero1", false, false},
+	{"len(hm) + n", "hetero1", false, false},
+	{"hm[\"a\"][0] + n", "hetero1", false, false},
+	{"n + 1", "hetero2", false, false},
+	{"hu[\"p\"].Name", "hetero2", false, false},
+	{"len(hu)", "hetero2", false, false},
 }
 
 func pickProg13(r *rng, user bool) Prog {
@@ -221,7 +233,7 @@ func (h *Hist13) keys() []pkey {
 	var ks []pkey
 	for _, op := range h.Ops {
 		switch op.K {
-		case "compile":
+		case "compile", "bulk":
 			ks = append(ks, pkey{"compile", h.Engines[op.Eng], op.Prog.Src, op.Prog.Env, ""})
 		case "invoke":
 			c := h.Ops[op.C]
@@ -240,6 +252,7 @@ func (h *Hist13) keys() []pkey {
 }
 
 type hist13Result struct {
+	GCBefore int
 	Viol     *Violation
 	Sim      simrt.Result
 	Reused   int
@@ -315,9 +328,32 @@ func runHist13(h *Hist13, x *evalCtx) hist13Result {
 			}
 			return envMakers[name](), "", nil
 		}
+		// a Callable is dropped after its last use, so that what it keeps alive (its
+		// compile-time environment) can be collected and its address reused
+		lastUse := map[int]int{}
+		for i, op := range h.Ops {
+			if op.K == "invoke" {
+				lastUse[op.C] = i
+			}
+		}
 		for i := range h.Ops {
+			if i > 0 {
+				prev := h.Ops[i-1]
+				if prev.K == "invoke" && lastUse[prev.C] == i-1 {
+					delete(calls, prev.C)
+				}
+				if prev.K == "compile" {
+					if _, used := lastUse[i-1]; !used {
+						delete(calls, i-1)
+					}
+				}
+			}
 			op := &h.Ops[i]
 			res.Ops++
+			if op.GCBefore {
+				runtime.GC()
+				res.GCBefore++
+			}
 			switch op.K {
 			case "compile":
 				env, snap, host := carrier(op.Carrier, op.Prog.Env, true)
@@ -365,6 +401,17 @@ func runHist13(h *Hist13, x *evalCtx) hist13Result {
 					v, txt, err := yae.Debug(op.Prog.Src, env)
 					valObs(o, v, err)
 					o.Debug = txt
+				})
+			case "bulk":
+				// N compilations of one source against fresh, equally typed environments;
+				// the Callables are dropped at once (many dead compile-time environments)
+				got[i] = x.observe(false, func(o *obs) {
+					o.Class = "ok"
+					for j := 0; j < op.N; j++ {
+						if _, err := engines[op.Eng].Compile(op.Prog.Src, envMakers[op.Prog.Env]()); err != nil {
+							o.Class = "cerr"
+						}
+					}
 				})
 			case "interfere":
 				r := newRng(uint64(i), uint64(op.N), h.Sim.Seed)
@@ -505,6 +552,30 @@ func genHist13(r *rng) *Hist13 {
 			h.Ops = append(h.Ops, H13Op{K: "interfere", N: 1 + r.intn(4)})
 		}
 	}
+	if r.chance(0.3) {
+		// churn: the same generic source compiled again and again on ONE engine under
+		// alternating typings, a collection between the rounds (stale caches keyed by
+		// addresses or by source text alone)
+		e := r.intn(ne)
+		p := pickGeneric(r, h.Engines[e].UserFuns)
+		rounds := 3 + r.intn(6)
+		if r.chance(0.5) {
+			q := p
+			q.Env = genericEnvs[r.intn(4)]
+			h.Ops = append(h.Ops, H13Op{K: "bulk", Eng: e, Prog: &q, N: 20 + r.intn(60)})
+		}
+		for j := 0; j < rounds; j++ {
+			q := p
+			q.Env = genericEnvs[r.intn(4)]
+			h.Ops = append(h.Ops, H13Op{K: "compile", Eng: e, Prog: &q, Carrier: "fresh", GCBefore: r.chance(0.7)})
+			h.Ops = append(h.Ops, H13Op{K: "invoke", C: len(h.Ops) - 1, Env: q.Env, Carrier: carriers[r.intn(4)]})
+		}
+	}
+	for i := range h.Ops {
+		if r.chance(0.08) {
+			h.Ops[i].GCBefore = true
+		}
+	}
 	h.Sim = simrt.Config{Seed: r.u64() | 1, ClockSeam: true, ClockBase: 1500000000 + int64(r.intn(400000000)), MaxSteps: 20_000_000}
 	h.Sim.MapMode = []int{simrt.MapShuffle, simrt.MapShuffle, simrt.MapReverse, simrt.MapRotate, simrt.MapSorted}[r.intn(5)]
 	h.Sim.MapParam = 1 + r.intn(5)
@@ -598,7 +669,7 @@ func (c13) Batch(seed uint64, wid, batch, count int, deadline time.Time, emit fu
 		c["steps"] += int64(res.Sim.Steps)
 		c["map_iterations"] += int64(res.Sim.MapIters)
 		c["fault_hash_perm_fired"] += int64(res.Sim.MapPerms)
-		c["fault_gc_fired"] += int64(res.Sim.FaultsFired["gc"])
+		c["fault_gc_fired"] += int64(res.Sim.FaultsFired["gc"]) + int64(res.GCBefore)
 		c["fault_clock_jump_fired"] += int64(res.Sim.FaultsFired["clock"])
 		c["fault_knob_runs"] += int64(res.Sim.FaultsFired["knob"])
 		c["fault_env_reuse"] += int64(res.Reused)
@@ -735,6 +806,11 @@ func (c13) Candidates(rf *ReplayFile) []*ReplayFile {
 		if op.StdoutFail {
 			n := clone()
 			n.Ops[i].StdoutFail = false
+			mk(n)
+		}
+		if op.GCBefore {
+			n := clone()
+			n.Ops[i].GCBefore = false
 			mk(n)
 		}
 	}
